@@ -23,7 +23,9 @@ import (
 	"fmt"
 	"net/http"
 	"regexp"
+	"runtime"
 	"sort"
+	"strconv"
 	"strings"
 	"sync"
 	"sync/atomic"
@@ -47,11 +49,32 @@ var vfC09xEpoch = time.Date(2022, 5, 6, 7, 8, 9, 0, time.UTC)
 type vfC09xClock struct {
 	ns    atomic.Int64
 	reads atomic.Int64
+	given sync.Map // goroutine id -> the value (time.Duration since the epoch) its clock read returned
 }
 
+// now hands out the current virtual instant, remembers which goroutine got which value, and only
+// THEN counts the read: the harness advances the clock only after it has seen the count, so no
+// request can be handed an instant the oracle does not know about. (Counting first was a race:
+// a reader descheduled between the count and the load saw the next step's instant.)
 func (c *vfC09xClock) now() time.Time {
+	v := time.Duration(c.ns.Load())
+	c.given.Store(vfC09xGoid(), v)
 	c.reads.Add(1)
-	return vfC09xEpoch.Add(time.Duration(c.ns.Load()))
+	return vfC09xEpoch.Add(v)
+}
+
+func vfC09xGoid() int64 {
+	var buf [64]byte
+	n := runtime.Stack(buf[:], false)
+	f := strings.Fields(string(buf[:n])) // "goroutine 123 [running]:"
+	if len(f) < 2 {
+		return -1
+	}
+	id, err := strconv.ParseInt(f[1], 10, 64)
+	if err != nil {
+		return -1
+	}
+	return id
 }
 
 var vfC09xWaitTag = regexp.MustCompile(`rateLimiter: waiting duration: ([^ |]+)`)
@@ -60,7 +83,9 @@ const vfC09xGuard = 10 * time.Second
 
 type vfC09xReq struct {
 	step      int
-	arrival   time.Duration // virtual, since limiter creation
+	arrival   time.Duration // virtual, since limiter creation: the value the request's own clock read returned
+	planned   time.Duration // the instant the harness had set when it fired the request
+	sawClock  bool
 	cancel    stdcontext.CancelFunc
 	returned  atomic.Bool
 	cancelled bool // we cancelled it before it had returned
@@ -70,9 +95,11 @@ type vfC09xReq struct {
 	hasWait   bool
 	elapsed   time.Duration // real
 	done      chan struct{}
+	clk       *vfC09xClock
 }
 
 func vfC09xFire(f filters.Filter, r *vfC09xReq) {
+	r.planned = r.arrival
 	gctx, cancel := stdcontext.WithTimeout(stdcontext.Background(), vfC09xGuard)
 	r.cancel = cancel
 	r.done = make(chan struct{})
@@ -88,6 +115,9 @@ func vfC09xFire(f filters.Filter, r *vfC09xReq) {
 		t0 := time.Now()
 		r.result = f.Handle(ctx)
 		r.elapsed = time.Since(t0)
+		if v, ok := r.clk.given.Load(vfC09xGoid()); ok {
+			r.arrival, r.sawClock = v.(time.Duration), true
+		}
 		r.returned.Store(true)
 		if resp := ctx.GetOutputResponse(); resp != nil {
 			r.status = resp.(*httpprot.Response).StatusCode()
@@ -168,7 +198,7 @@ func TestVerifC09FilterCancel(t *testing.T) {
 		clk.ns.Store(int64(offset))
 		var all []*vfC09xReq
 		for i := 0; i < n1; i++ {
-			r := &vfC09xReq{step: 1, arrival: offset}
+			r := &vfC09xReq{step: 1, arrival: offset, clk: clk}
 			all = append(all, r)
 			vfC09xFire(f, r)
 		}
@@ -201,14 +231,23 @@ func TestVerifC09FilterCancel(t *testing.T) {
 		}
 		clk.ns.Store(int64(offset + gap))
 		for i := 0; i < m; i++ {
-			r := &vfC09xReq{step: 2, arrival: offset + gap}
+			r := &vfC09xReq{step: 2, arrival: offset + gap, clk: clk}
 			all = append(all, r)
 			vfC09xFire(f, r)
 			waitReads(int64(n1 + i + 1))
 		}
 		join(all)
 
-		// ---- judge
+		// ---- judge. Every request is judged with the instant its own clock read returned.
+		for _, r := range all {
+			if !r.sawClock {
+				rt.Fatalf("VF-INCONCLUSIVE a request returned without having read the limiter clock\n%s", desc)
+			}
+			if r.arrival != r.planned {
+				// cannot happen while the clock is advanced only after all outstanding reads were counted
+				rt.Fatalf("VF-INCONCLUSIVE harness invariant broken: request fired at +%v read the clock at +%v\n%s", r.planned, r.arrival, desc)
+			}
+		}
 		var hist strings.Builder
 		step1 := append([]*vfC09xReq(nil), all[:n1]...)
 		rank := func(r *vfC09xReq) int {
@@ -314,5 +353,3 @@ func TestVerifC09FilterCancel(t *testing.T) {
 		})
 	})
 }
-
-var _ = sync.Mutex{}
